@@ -47,10 +47,10 @@ class ExactModel(gpytorch.models.ExactGP):
     def __init__(self, X, y, fam, seed=0, batch_shape=(), noise=None, priors=()):
         # own the library's random initialisations (LinearMean weights, IndexKernel factors, RFF weights, ...)
         torch.manual_seed(util.seed_for(seed, "init|" + fam))
-        d = X.shape[-1]
+        d = X.shape[-1] if X.dim() > 1 else 1
         bs = torch.Size(batch_shape)
         self.fam = fam
-        n = X.shape[-2]
+        n = X.shape[-2] if X.dim() > 1 else X.shape[0]
         if fam in ("fixednoise", "fixednoise_learn"):
             if noise is None:
                 noise = 0.05 + 0.1 * torch.arange(n, dtype=F64) / n
